@@ -66,7 +66,8 @@ def is_const(t):
 
 
 class Deep:
-    def __init__(self, F, root, max_paths=3000, max_depth=6, inline=True, opaque=None, inline_only=None):
+    def __init__(self, F, root, max_paths=3000, max_depth=6, inline=True, opaque=None, inline_only=None, stop_at=()):
+        self.stop_at = frozenset(stop_at)
         self.F, self.root = F, root
         self.max_paths, self.max_depth, self.inline = max_paths, max_depth, inline
         self.opaque = re.compile(opaque) if opaque else None
@@ -256,6 +257,9 @@ class Deep:
     def _exec(self, fr, bb, st, seen, k):
         body = fr.body
         while True:
+            if fr.fid == 0 and bb in self.stop_at and seen:
+                self._finish(st, ("reached", bb))
+                return
             if bb in seen:
                 # loop cut
                 self._finish(st, ("loop", fr.fid, bb), cut=True) if fr.fid == 0 else k(st, ("loop", fr.fid, bb))
